@@ -379,7 +379,6 @@ func genC09(r *Rng, tier string) *World {
 	return w
 }
 
-
 func runC09(x *X) *Violation {
 	w := x.W
 	s := w.Schemas[0]
